@@ -351,10 +351,15 @@ class RefEval:
             return self.round(ctx, arith.neg(a), 'neg')
         raise Ambiguous(f'unary {type(e.op).__name__}')
 
-    BINOPS = {ast.Add: ('add', arith.add), ast.Sub: ('sub', arith.sub), ast.Mult: ('mul', arith.mul), ast.Div: ('div', arith.div)}
+    BINOPS = {ast.Add: ('add', arith.add), ast.Sub: ('sub', arith.sub), ast.Mult: ('mul', arith.mul), ast.Div: ('div', arith.div),
+              ast.Mod: ('mod', arith.pymod)}
 
     def e_BinOp(self, e, env, ctx):
         ent = self.BINOPS.get(type(e.op))
+        if isinstance(e.op, ast.Pow):
+            a = self.number(e.left, env, ctx)
+            b = self.number(e.right, env, ctx)
+            return self.round(ctx, self._powi(a, b, 'pow'), 'pow')
         if ent is None:
             raise Ambiguous(f'binary {type(e.op).__name__}')
         a = self.number(e.left, env, ctx)
@@ -617,9 +622,122 @@ class RefEval:
             raise Stuck('type', 'enumerate of a non-list')
         return [TupleV((('fin', False, Fraction(i)), x)) for i, x in enumerate(v)]
 
+
+    # ---- further builtins of the language (derived-semantics.rst: E-Op / E-Pred with another operation) ----
+    def _unop(name, fn):
+        def f(self, e, env, ctx):
+            if len(e.args) != 1:
+                raise Ambiguous(f'{name}: arity')
+            return self.round(ctx, fn(self.number(e.args[0], env, ctx)), name)
+        return f
+
+    def _binop(name, fn):
+        def f(self, e, env, ctx):
+            if len(e.args) != 2:
+                raise Ambiguous(f'{name}: arity')
+            a = self.number(e.args[0], env, ctx)
+            b = self.number(e.args[1], env, ctx)
+            return self.round(ctx, fn(a, b), name)
+        return f
+
+    b_cbrt = _unop('cbrt', arith.cbrt)
+    b_fabs = _unop('abs', arith.fabs)
+    b_roundint = _rint('roundint')
+    b_copysign = _binop('copysign', arith.copysign)
+    b_fdim = _binop('fdim', arith.fdim)
+    b_fmod = _binop('fmod', arith.fmod)
+    b_remainder = _binop('remainder', arith.remainder)
+    b_hypot = _binop('hypot', arith.hypot)
+
+    def b_nearbyint(self, e, env, ctx):
+        # the integer chosen by the context's own rounding mode, then C: one rounding at digit position -1
+        a = self.number(e.args[0], env, ctx)
+        fd = self.fd(ctx)
+        if fd.real:
+            raise Stuck('nearbyint_real')
+        self.ops_seen['nearbyint'] = self.ops_seen.get('nearbyint', 0) + 1
+        exp = rnd.expected_round(fd, a, -1)
+        if exp.raises and not exp.values:
+            raise Stuck('round', ','.join(exp.raises))
+        if exp.also_raises:
+            raise Ambiguous('nearbyint: rounding may raise')
+        vals = []
+        for v in exp.values:
+            if v not in vals:
+                vals.append(v)
+        if len(vals) != 1:
+            raise Ambiguous(f'nearbyint: {len(vals)} admissible results')
+        return vals[0]
+
+    def _powi(self, a, b, op):
+        if b[0] != 'fin' or b[2].denominator != 1 or b[2] > 64:
+            raise Ambiguous('pow: exponent is not a small integer (elementary function, C03)')
+        return arith.powi(a, int(arith.sval(b)))
+
+    def b_pow(self, e, env, ctx):
+        a = self.number(e.args[0], env, ctx)
+        b = self.number(e.args[1], env, ctx)
+        return self.round(ctx, self._powi(a, b, 'pow'), 'pow')
+
+    def _pred(name, fn):
+        def f(self, e, env, ctx):
+            if len(e.args) != 1:
+                raise Ambiguous(f'{name}: arity')
+            self.ops_seen[name] = self.ops_seen.get(name, 0) + 1
+            return fn(self.number(e.args[0], env, ctx))
+        return f
+
+    def _signbit(v):
+        if v[0] == 'nan':
+            raise Ambiguous('signbit of NaN')
+        return bool(v[1])
+
+    b_isnan = _pred('isnan', lambda v: v[0] == 'nan')
+    b_isinf = _pred('isinf', lambda v: v[0] == 'inf')
+    b_isfinite = _pred('isfinite', lambda v: v[0] == 'fin')
+    b_signbit = _pred('signbit', _signbit)
+
+    def _special(self, ctx, v, name):
+        # derived-semantics.rst gives ConstNan / ConstInf as "the IEEE 754 special values" without a rounding rule (the ops docstring says
+        # "rounded under the given context", the implementation hands the special back unrounded): where the active format holds the
+        # special both readings agree and that value is the reference; elsewhere the reference leaves the result open
+        fd = self.fd(ctx)
+        self.ops_seen[name] = self.ops_seen.get(name, 0) + 1
+        if fd.real:
+            return v
+        exp = rnd.expected_round(fd, v)
+        if exp.raises or exp.also_raises or [x for x in exp.values if x != v]:
+            raise Ambiguous(f'{name}: the active format has no such special value')
+        return v
+
+    def b_nan(self, e, env, ctx):
+        if e.args:
+            raise Ambiguous('nan: arity')
+        return self._special(ctx, ('nan',), 'const_nan')
+
+    def b_inf(self, e, env, ctx):
+        if e.args:
+            raise Ambiguous('inf: arity')
+        return self._special(ctx, ('inf', False), 'const_inf')
+
+    def _pair(idx):
+        def f(self, e, env, ctx):
+            v = self.expr(e.args[0], env, ctx)
+            if not isinstance(v, TupleV) or len(v.elts) != 2:
+                raise Stuck('type', 'fst / snd of a non-pair')
+            self.ops_seen['fst_snd'] = self.ops_seen.get('fst_snd', 0) + 1
+            return v.elts[idx]
+        return f
+    b_fst = _pair(0)
+    b_snd = _pair(1)
+
     BUILTINS = {'abs': b_abs, 'fp.sqrt': b_sqrt, 'fp.fma': b_fma, 'fp.round': b_round, 'fp.cast': b_cast, 'fp.floor': b_floor, 'fp.ceil': b_ceil,
                 'fp.trunc': b_trunc, 'max': b_max, 'min': b_min, 'len': b_len, 'sum': b_sum, 'any': b_any, 'all': b_all, 'range': b_range,
-                'zip': b_zip, 'enumerate': b_enumerate}
+                'zip': b_zip, 'enumerate': b_enumerate,
+                'fp.cbrt': b_cbrt, 'fp.fabs': b_fabs, 'fp.roundint': b_roundint, 'fp.nearbyint': b_nearbyint, 'fp.copysign': b_copysign,
+                'fp.fdim': b_fdim, 'fp.fmod': b_fmod, 'fp.remainder': b_remainder, 'fp.hypot': b_hypot, 'fp.pow': b_pow,
+                'fp.fmin': b_min, 'fp.fmax': b_max, 'fp.isnan': b_isnan, 'fp.isinf': b_isinf, 'fp.isfinite': b_isfinite,
+                'fp.signbit': b_signbit, 'fp.nan': b_nan, 'fp.inf': b_inf, 'fp.round_exact': b_cast, 'fp.fst': b_fst, 'fp.snd': b_snd}
 
     # ---- statements -------------------------------------------------------------------------------
     def bind(self, target, value, env):
